@@ -381,6 +381,34 @@ theorem binWCode_exec (L : Layout) (s : Cpu) (v : String) (op : BOp) (x y : WA) 
       rw [m2, x2, y2, hh, m1, x1, y1]
       rfl
 
+/-! ### chains (stage 7) -/
+
+/-- the operators of a chain, one after the other on the accumulator -/
+theorem chainCode_exec (L : Layout) (ops : List (BOp × RA)) (s : Cpu) (hz : s.f.z = (s.a == 0)) :
+    ∃ s2, execSeq s (chainCode Opd.none (opd L) ops) = some s2 ∧ s2.a = (chainVal L (srcOf s) s.a ops).2 ∧
+      srcOf s2 = (chainVal L (srcOf s) s.a ops).1 ∧ s2.sp = s.sp ∧ s2.f.z = (s2.a == 0) := by
+  induction ops generalizing s with
+  | nil => exact ⟨s, by simp [chainCode, execSeq], by simp [chainVal], by simp [chainVal], rfl, hz⟩
+  | cons p rest ih =>
+    obtain ⟨op, y⟩ := p
+    obtain ⟨s1, e1, a1, m1, p1, z1⟩ := opCode_exec L s op y
+    obtain ⟨s2, e2, a2, m2, p2, z2⟩ := ih s1 (z1 hz)
+    refine ⟨s2, ?_, ?_, ?_, by rw [p2, p1], z2⟩
+    · simp only [chainCode, execSeq_append', e1, Option.bind_some, e2]
+    · rw [a2, m1, a1]; simp [chainVal]
+    · rw [m2, m1, a1]; simp [chainVal]
+
+theorem chainStmt_exec (L : Layout) (s : Cpu) (v : LV) (a : RA) (op1 : BOp) (b1 : RA) (ops : List (BOp × RA)) :
+    ∃ s', execSeq s (loadA Opd.none (opd L) (rordered op1 a b1).1 ++ chainCode Opd.none (opd L) ((op1, (rordered op1 a b1).2) :: ops) ++
+        storeA Opd.none (opd L) v) = some s' ∧
+      srcOf s' = chainSpec L (srcOf s) v a op1 b1 ops ∧ s'.sp = s.sp ∧ FlagsInv L (some v) s' := by
+  obtain ⟨s1, e1, a1, m1, p1, z1⟩ := loadA_exec L s (rordered op1 a b1).1
+  obtain ⟨s2, e2, a2, m2, p2, z2⟩ := chainCode_exec L ((op1, (rordered op1 a b1).2) :: ops) s1 z1
+  obtain ⟨s3, e3, m3, p3, z3⟩ := storeA_exec L s2 v
+  refine ⟨s3, ?_, ?_, by rw [p3, p2, p1], z3 z2⟩
+  · simp only [execSeq_append', e1, Option.bind_some, e2, e3]
+  · rw [m3, m2, a2, a1, m1]; rfl
+
 /-- every statement, every layout, every machine state: the code ends, memory / X / Y are what the source
     prescribes, SP is untouched, and the generator's belief about the flags is true afterwards -/
 theorem rflat_correct (L : Layout) (zp : String → Bool) (st : RStmt) (fl : Option FRef) (s : Cpu) (hinv : FlagsInv L fl s) :
@@ -392,6 +420,9 @@ theorem rflat_correct (L : Layout) (zp : String → Bool) (st : RStmt) (fl : Opt
   | opasg v op a => simpa [rgenOps, rtemplate, rspec, flagsAfter] using binCode_exec L zp s fl v op v.ra a hinv
   | inc v => simpa [rgenOps, rtemplate, rspec, flagsAfter] using incCode_exec L s true v
   | dec v => simpa [rgenOps, rtemplate, rspec, flagsAfter] using incCode_exec L s false v
+  | chain v a op1 b1 ops =>
+    obtain ⟨s', h1, h2, h3, h4⟩ := chainStmt_exec L s v a op1 b1 ops
+    exact ⟨s', by simpa [rgenOps, rtemplate] using h1, by simpa [rspec] using h2, h3, by simpa [flagsAfter] using h4⟩
   | asgW v a =>
     obtain ⟨s', h1, h2, h3⟩ := asgWCode_exec L s v a
     exact ⟨s', by simpa [rgenOps, rtemplate] using h1, by simpa [rspec] using h2, h3, by simp [flagsAfter]⟩
